@@ -13,7 +13,7 @@ static int parent(int t){ switch(t){
 int rt_exc_isa(int t, int c){ if(c==RT_TI_ALL) return 1; for(int i=0;i<4 && t!=RT_TI_NONE;i++){ if(t==c) return 1; t=parent(t);} return 0; }
 int rt_exc_sel(int cleanup, int n, ...){ va_list ap; va_start(ap,n); int r=0; for(int i=0;i<n;i++){ int c=va_arg(ap,int); if(!r && rt_exc_isa(rt_exc_type,c)) r=c; } va_end(ap); return r; }
 void rt_memcpy(void*d,const void*s,unsigned long n){ unsigned char*dd=d; const unsigned char*ss=s; for(unsigned long i=0;i<n;i++) dd[i]=ss[i]; }
-void rt_memmove(void*d,const void*s,unsigned long n){ unsigned char*dd=d; const unsigned char*ss=s; if(dd<ss) for(unsigned long i=0;i<n;i++) dd[i]=ss[i]; else for(unsigned long i=n;i>0;i--) dd[i-1]=ss[i-1]; }
+void rt_memmove(void*d,const void*s,unsigned long n){ unsigned char*dd=d; const unsigned char*ss=s; if((unsigned long)dd<(unsigned long)ss) for(unsigned long i=0;i<n;i++) dd[i]=ss[i]; else for(unsigned long i=n;i>0;i--) dd[i-1]=ss[i-1]; }
 void rt_memset(void*d,unsigned char v,unsigned long n){ unsigned char*dd=d; for(unsigned long i=0;i<n;i++) dd[i]=v; }
 /* ---- stubs for the libstdc++ / C++ ABI externals (names as mangled by ll2c) ---- */
 void *F__Znwm(unsigned long n){ void*p=malloc(n?n:1);
